@@ -1,3 +1,4 @@
+use std::any::Any;
 use std::panic;
 #[cfg(not(may_verif))]
 use std::sync::atomic::{AtomicBool, AtomicUsize, Ordering};
@@ -8,7 +9,8 @@ use std::time::{Duration, Instant};
 
 use crate::cancel::Cancel;
 use crate::coroutine_impl::{
-    current_cancel_data, run_coroutine, Coroutine, CoroutineImpl, EventSource, EventSubscriber,
+    current_cancel_data, is_coroutine, run_coroutine, Coroutine, CoroutineImpl, EventSource,
+    EventSubscriber,
 };
 use crate::join::JoinHandle;
 use crate::scoped::spawn_unsafe;
@@ -201,6 +203,8 @@ pub struct Cqueue {
     total: AtomicUsize,
     // panic status
     is_panicking: AtomicBool,
+    // set when `finish` is through
+    finished: std::sync::atomic::AtomicBool,
 }
 
 impl Cqueue {
@@ -329,10 +333,11 @@ impl Cqueue {
     }
 }
 
-impl Drop for Cqueue {
+impl Cqueue {
     // this would cancel all unfinished select coroutines
     // and wait until all of them return back
-    fn drop(&mut self) {
+    // returns the panic of a select coroutine if `poll` re-threw it meanwhile
+    fn finish(&self) -> Option<Box<dyn Any + Send>> {
         // first cancel all the select coroutines if they are running
         self.selectors
             .lock()
@@ -347,6 +352,18 @@ impl Drop for Cqueue {
         // if self.is_panicking {
         //     return;
         // }
+
+        // postpone a cancel of this coroutine until the select coroutines are
+        // finished, like a scoped join does: a cancelled coroutine does not
+        // block in `poll`, it would spin here and never let them run
+        let cancel = if is_coroutine() {
+            Some(current_cancel_data())
+        } else {
+            None
+        };
+        if let Some(c) = cancel {
+            c.disable_cancel();
+        }
 
         // run the rest event
         // if a select coroutine panicked, `poll` re-throws its panic (only the
@@ -363,10 +380,20 @@ impl Drop for Cqueue {
             }
         }
         // we are sure that all the coroutines are finished
-        if let Some(e) = panic {
-            if !std::thread::panicking() {
-                panic::resume_unwind(e);
-            }
+        if let Some(c) = cancel {
+            c.enable_cancel();
+        }
+        self.finished
+            .store(true, std::sync::atomic::Ordering::Relaxed);
+        panic
+    }
+}
+
+impl Drop for Cqueue {
+    // `scope` has finished the cqueue already, this is only a safety net
+    fn drop(&mut self) {
+        if !self.finished.load(std::sync::atomic::Ordering::Relaxed) {
+            self.finish();
         }
     }
 }
@@ -386,6 +413,15 @@ where
         selectors: Mutex::new(Vec::new()),
         total: AtomicUsize::new(0),
         is_panicking: AtomicBool::new(false),
+        finished: std::sync::atomic::AtomicBool::new(false),
     };
-    f(&cqueue)
+    // `finish` waits for the select coroutines. As in `coroutine::scope`, this must not
+    // happen inside an unwind: catch a panic of `f` and continue it after the wait
+    let ret = panic::catch_unwind(panic::AssertUnwindSafe(|| f(&cqueue)));
+    let arm_panic = cqueue.finish();
+    match (ret, arm_panic) {
+        (Ok(ret), None) => ret,
+        // the panic of `f` goes first, as it did when the cqueue was dropped inside its unwind
+        (Err(e), _) | (Ok(_), Some(e)) => panic::resume_unwind(e),
+    }
 }
